@@ -109,7 +109,13 @@ static void emit(FILE *f, const char *name, unsigned which) {
   emit_arr(f, name, "_CHUNK_MAXH", "unsigned short", L.chunk_maxh);
   emit_arr(f, name, "_CHUNK_LIMIT", "unsigned short", L.chunk_limit);
   emit_arr(f, name, "_CHUNK_HSIZE", "unsigned char", L.chunk_hsize);
-  // per class: sorted list of the byte offsets in that class (the harness picks a symbolic index into one list)
+  // the must-reject set: offsets of every byte whose class is neither FREE nor COMPRESSION (the compression byte is kept apart)
+  {
+    std::vector<unsigned> mr; for (size_t i = 0; i < L.cls.size(); ++i) if (L.cls[i] != CLS_FREE && L.cls[i] != CLS_COMPRESSION) mr.push_back((unsigned)i);
+    fprintf(f, "enum { %s_N_MR = %zu };\n", name, mr.size());
+    emit_arr(f, name, "_MR", "unsigned short", mr);
+  }
+  // per class: sorted list of the byte offsets in that class
   for (unsigned c = 1; c < N_CLS; ++c) {
     std::vector<unsigned> offs; for (size_t i = 0; i < L.cls.size(); ++i) if (L.cls[i] == c) offs.push_back((unsigned)i);
     fprintf(f, "enum { %s_N_%s = %zu };\n", name, cls_names[c], offs.size());
